@@ -477,3 +477,13 @@ func sameSlice(a, b []byte) bool { return false }
 
 // VSpecHeaderOK exports the header rule set for the contracts of package wsutil.
 func VSpecHeaderOK(h Header, s State) bool { return specHeaderOK(h, s) }
+
+//@ func ReadFrame
+//@   props C01 C15 C16
+//@   requires [stream] VStreamOK(r)
+//@   ensures  [hdr]    err == nil ==> f.Header == VSpecDecode(r, old(inPos(r))) && int64(len(f.Payload)) == f.Header.Length
+//@   ensures  [pos]    err == nil ==> inPos(r) == old(inPos(r))+VSpecNeed(inByte(r, old(inPos(r))+1))+len(f.Payload)
+//@   ensures  [payload] err == nil ==> forall(0, len(f.Payload), func(k int) bool { return f.Payload[k] == inByte(r, old(inPos(r))+VSpecNeed(inByte(r, old(inPos(r))+1))+k) })
+//@   ensures  [cut]    inEnd(r)-old(inPos(r)) < 2 ==> err != nil
+//@   ensures  [fresh]  err == nil && len(f.Payload) > 0 ==> fresh(f.Payload)
+//@   assigns stream(r)
